@@ -287,6 +287,14 @@ impl Header {
         if !flags_ok {
             return Err(Error::InvalidHeader);
         }
+        // These packets have no variable header and no payload.
+        if matches!(
+            typ,
+            PacketType::Pingreq | PacketType::Pingresp | PacketType::Disconnect
+        ) && remaining_len != 0
+        {
+            return Err(Error::InvalidHeader);
+        }
         Ok(Header {
             typ,
             dup: false,
